@@ -501,7 +501,7 @@ class NDNApp:
         """
         name = enc.Name.normalize(name)
         node = self._fib.setdefault(name, PrefixTreeNode())
-        if node.callback:
+        if node.callback is not None:
             raise ValueError(f'Duplicated handler attachment: {enc.Name.to_str(name)}')
         node.callback = handler
         node.validator = validator
